@@ -10,3 +10,5 @@ def run(ctx):
     arity(ctx)
     from ..scen_misc import preset_collection
     preset_collection(ctx)
+    from ..conform import conformance
+    conformance(ctx, ['invalid-config'])      # the references the obligations are stated against, compared with jawk::go on concrete runs (validates the oracles; never decides)
